@@ -95,6 +95,7 @@ package crlrepository
 //@   ensures err != nil ==> (forall q string :: has(R.crlRepository, q) == old(has(R.crlRepository, q))) && (forall q string :: R.crlRepository[q] == old(R.crlRepository[q]))
 //@   ensures map_stays_ok: old(repoMapOK(R)) ==> repoMapOK(R)
 //@   ensures locks_stay_distinct: old(repoLocksDistinct(R)) ==> repoLocksDistinct(R)
+//@   ensures[C12,C16] a_persisted_crl_is_in_force_again: err == nil && called(CRLStore.IsEmpty#1) && !res(CRLStore.IsEmpty#1) ==> ret.Loaded
 //@   ensures[C12,C16] loaded_means_meta_on_disk: err == nil && ret.Loaded ==> storeHas(ret.CRLStore, sum64(crlstore.MetaInfoKey))
 
 //@ func Repository.createTempFile
@@ -144,6 +145,8 @@ package crlrepository
 //@   requires repoOK(R) && entryShell(entry) && chains != nil && chainsOK(chains)
 //@   requires[C13] entry_lock_held: wheld(entry.entryLock)
 //@   requires[C08,C11,C04,C16] first_load_only: !entry.Loaded
+//@   ensures[C12,C20] the_download_file_is_cleaned_up_on_every_exit: called(Repository.createTempFile#1) && res(Repository.createTempFile#1, 1) == nil ==> called(CloseWithErrorHandling#1)
+//@   ensures[C15] a_failed_first_load_keeps_the_chains_for_the_retry: err != nil ==> entry.Chains == old(entry.Chains)
 //@   requires entryInv(entry)
 //@   ensures entryInv(entry)
 //@   assigns crlrepository.Entry.CRLStore, crlrepository.Entry.Loaded, crlrepository.Entry.LastUpdateSignatureVerifyFailed, crlrepository.Entry.LastUpdateSignature, crlrepository.Entry.Chains, M.map[string][]uint8, X.ldbhas, X.fs, X.net, X.retry, X.stream, X.spos, X.hacc, X.hkind, E.uint8, E.any, fresh:E.*core.CertificateChainEntry, H.crlloader.MultiSchemesCRLLoader, H.crlloader.URLLoader, H.crlloader.FileLoader
@@ -174,6 +177,9 @@ package crlrepository
 //@   ensures[C04,C08,C16] no_swap_without_verification: called(Repository.updateEntry#any) ==> called(verifyCRLSignature#1) && res(verifyCRLSignature#1, 1) == nil
 //@   ensures[C08,C15,C18] replacement_store_carries_the_signer: called(Repository.updateEntry#any) ==> called(CRLPersisterProcessor.UpdateSignatureCertificate#1) && res(CRLPersisterProcessor.UpdateSignatureCertificate#1) == nil && arg(CRLPersisterProcessor.UpdateSignatureCertificate#1, 1) == res(verifyCRLSignature#1, 0)
 //@   ensures[C04,C16] supplied_chains_are_the_ones_verified_against: newChains != nil && called(verifyCRLSignature#1) ==> arg(verifyCRLSignature#1, 1) == newChains
+//@   ensures[C12,C20] the_download_file_is_cleaned_up_on_every_exit: called(Repository.createTempFile#1) && res(Repository.createTempFile#1, 1) == nil ==> called(CloseWithErrorHandling#1)
+//@   ensures[C08,C15] only_a_failed_swap_drops_the_entry: called(Repository.deleteEntrySync#any) ==> called(Repository.updateEntry#1) && res(Repository.updateEntry#1) != nil
+//@   ensures[C04,C08,C12,C15,C16] success_means_the_store_was_swapped: err == nil ==> called(Repository.updateEntry#1) && res(Repository.updateEntry#1) == nil
 //@   ensures[C08,C15] failed_refresh_keeps_entry: err != nil ==> !called(Repository.deleteEntrySync#1)
 //@   ensures chains_untouched: old(newChains != nil && chainsOK(newChains)) ==> chainsOK(newChains)
 
@@ -198,8 +204,9 @@ package crlrepository
 //@   ensures chains_untouched: old(chains != nil && chainsOK(chains)) ==> chainsOK(chains)
 
 //@ func Repository.AddCRL
-//@   props C08 C10 C13 C15 C16
-//@   ensures[C08,C15] signer_repair_is_attempted: r1 == nil && called(Repository.getOrAddEntry#1) && !called(Repository.loadActively#1) && res(Repository.getOrAddEntry#1, 0) != nil && res(Repository.getOrAddEntry#1, 0).LastUpdateSignatureVerifyFailed ==> called(Repository.tryUpdateSignatureCertFromChain#1)
+//@   props C08 C10 C11 C13 C15 C16
+//@   ensures[C11,C16] an_entry_whose_first_load_failed_stays_unloaded_in_the_repository: !called(Repository.closeRepositoryEntry#any) && !called(Repository.deleteEntrySync#any)
+//@   ensures[C08,C15,C16] signer_repair_is_attempted: r1 == nil && called(Repository.getOrAddEntry#1) && !called(Repository.loadActively#1) && res(Repository.getOrAddEntry#1, 0) != nil && res(Repository.getOrAddEntry#1, 0).LastUpdateSignatureVerifyFailed ==> called(Repository.tryUpdateSignatureCertFromChain#1)
 //@   requires repoOK(R) && norwlocks() && crlLocations != nil && chains != nil && chainsOK(chains)
 //@   assigns L.held, crlrepository.Entry.CRLStore, crlrepository.Entry.Loaded, crlrepository.Entry.LastUpdateSignatureVerifyFailed, crlrepository.Entry.LastUpdateSignature, crlrepository.Entry.Chains, H.crlrepository.Repository.crlRepository, M.map[string]*crlrepository.Entry, crlstore.MapStore.Map, M.map[string][]uint8, crlstore.LevelDbStore.Db, H.crlloader.MultiSchemesCRLLoader, H.crlloader.URLLoader, H.crlloader.FileLoader, X.ldbhas, X.fs, X.net, X.retry, X.stream, X.spos, X.hacc, X.hkind, E.uint8, E.any, E.string, fresh:E.*core.CertificateChainEntry, fresh:E.core.CertificateChain, fresh:E.core.CertificateChainEntry
 //@   ensures norwlocks()
